@@ -40,6 +40,25 @@ theorem ChansRel.closed_stays {s s' : St} (h : ChansRel s s') {i : Nat} (hc : Cl
 def CloseStep (i : Nat) (s : St) (r : Except String Unit) (s' : St) : Prop :=
   s'.1.dcQueue = s.1.dcQueue ∧ s'.1.dataChannels = s.1.dataChannels ∧ ChansRel s s' ∧ (IsOk r → ClosedAt s'.1 i)
 
+/-- postcondition of a handler running on a closed channel: nothing but the reaction list (and the log) changes -/
+def ReactClosedPost (s1 : St) (r : Except String Unit) (s' : St) : Prop :=
+  s'.1.chans = s1.1.chans ∧ s'.1.dcQueue = s1.1.dcQueue ∧ s'.1.dataChannels = s1.1.dataChannels
+
+/-- a handler that calls `send()` on a closed channel gets `InvalidStateError`: no channel object, queue or id changes -/
+theorem wp_react_closed (k i : Nat) (s1 : St) (h : ClosedAt s1.1 i) : WP (react k i) (ReactClosedPost s1) s1 := by
+  obtain ⟨c, hc, h3⟩ := h
+  unfold react
+  wp_simp
+  split
+  · wp_simp; exact ⟨rfl, rfl, rfl⟩
+  · wp_simp
+    rw [hc]
+    simp only
+    have : c.ready ≠ 1 := by omega
+    simp only [this, ne_eq, not_false_eq_true, if_true]
+    wp_simp
+    exact ⟨rfl, rfl, rfl⟩
+
 /-- `_setReadyState("closed")` -/
 theorem wp_setReady3 (i : Nat) (s : St) : WP (setReady i 3) (CloseStep i s) s := by
   unfold setReady
@@ -49,10 +68,12 @@ theorem wp_setReady3 (i : Nat) (s : St) : WP (setReady i 3) (CloseStep i s) s :=
   | some c =>
     simp only
     have hlt : i < s.1.chans.length := (List.getElem?_eq_some_iff.1 hc).1
-    have key : ∀ l', CloseStep i s (.ok ()) ({ s.1 with chans := s.1.chans.set i { c with ready := 3 } }, l') := by
-      intro l'
-      refine ⟨rfl, rfl, ⟨by simp, ?_⟩, fun _ => ⟨_, List.getElem?_set_self hlt, rfl⟩⟩
+    have key : ∀ (s' : St) (r : Except String Unit), s'.1.chans = s.1.chans.set i { c with ready := 3 } →
+        s'.1.dcQueue = s.1.dcQueue → s'.1.dataChannels = s.1.dataChannels → CloseStep i s r s' := by
+      intro s' r h1 h2 h4
+      refine ⟨h2, h4, ⟨by simp [h1], ?_⟩, fun _ => ⟨_, by rw [h1]; exact List.getElem?_set_self hlt, rfl⟩⟩
       intro j x hx
+      rw [h1]
       by_cases hj : i = j
       · subst hj
         rw [hc] at hx; cases hx
@@ -62,11 +83,14 @@ theorem wp_setReady3 (i : Nat) (s : St) : WP (setReady i 3) (CloseStep i s) s :=
     · wp_simp
       split
       · split
-        · wp_simp; exact key _
+        · rename_i h; exact absurd h (by decide)
         · split
-          · wp_simp; exact key _
-          · wp_simp; exact key _
-      · wp_simp; exact key _
+          · wp_simp
+            refine WP.mono (wp_react_closed 1 i _ ⟨_, List.getElem?_set_self hlt, rfl⟩) ?_
+            intro r s' ⟨h1, h2, h4⟩
+            exact key s' r h1 h2 h4
+          · wp_simp; exact key _ _ rfl rfl rfl
+      · wp_simp; exact key _ _ rfl rfl rfl
     · rename_i h3
       wp_simp
       have h3' : c.ready = 3 := by simpa using h3
